@@ -15,6 +15,21 @@ update of its nodes before the export (`nodes.update(ids of existing nodes, thei
 allow_overwrite=True)`: same mesh, but femio may re-sort the storage order); the mesh handed to the model and to the
 oracle is the one the object reports after the update (`fd.nodes.ids`, `fd.nodes.data`), the nodal variables are
 attached afterwards in that order.
+Stream `history` (inside the quantifier, reported through `fail`; round-3 lessons A, C, D, E): ONE LIVE OBJECT is modified
+through public means (in-place edits through the arrays returned by `.data` / `.values` and through the arrays the caller
+handed to femio, `data` setter / `update_data`, `loc` / `iloc` write-through, `update` / `update_data(allow_overwrite=True)`,
+`overwrite`, new / popped / re-attached variables, `elements.update({...})` with re-connected, dropped, added rows and new
+type blocks, new nodes, node ids replaced through the `ids` setter), queried (`to_meshio()`, `ids2indices` in its dict /
+array / object forms, another writer, `to_first_order`, cached graph queries ...) and exported SEVERAL times (to a new file, into a
+directory that does not exist yet, over the previous file / a longer pre-existing VTK file with overwrite=True, through
+`to_meshio()` + `meshio.write`).  The mesh of the property at an export is the object's CURRENT PUBLIC STATE, copied out of the
+object just before the export; per export: oracle + model on that snapshot, the export leaves the user data of the object, the
+caller's arrays and everything earlier calls returned bit-identical, two exports with nothing in between give identical
+files; at the end an independently constructed fresh object with the same content gives the same file.  The hypothesis of
+the Lean history theorems (`Coherent`: nodes.id2index = enumerate(nodes.ids)) is evaluated on the live object before every
+export.  Mesh dimensions added there: tet + quad in one mesh, exactly one element, tet2 next to other types, gapped small
+node / element ids, element ids interleaving the types, non-canonical insertion order of the element types (also produced
+dynamically by `elements.update`), variable names that are prefixes of each other.  corpus/C06: minimised past failures.
 """
 import contextlib
 import io
@@ -28,7 +43,8 @@ from . import meshgen as G
 PROP = 'C06'
 LEAN_MODULES = ['Femio.Props.C06']
 THEOREMS = ['C06_index_translation', 'C06_export_succeeds', 'C06_type_table', 'C06_tet2_perms_inverse',
-            'C06_tet2_edges', 'C06_point_data']
+            'C06_tet2_edges', 'C06_point_data', 'C06_history_export', 'C06_history_coherent', 'C06_export_after_history',
+            'C06_exports_invisible', 'C06_ids_setter_counterexample']
 PARTIAL = []
 RULE = ('meshes over the eight types the property names (line, tri, quad, tet, tet2, pyr, prism, hex): combinatorial '
         '(arbitrary connectivity, 1-8 types mixed) and geometric (conforming bricks, tet meshes promoted to tet2 with exact '
@@ -40,13 +56,34 @@ RULE = ('meshes over the eight types the property names (line, tri, quad, tet, t
         'is the KEY; a case is one mesh + variables written with write("vtk") and read with meshio.read; '
         'non-trivial when the storage order is not 1..n ascending (ids differ from positions + 1); stream "updated": the same '
         'meshes after nodes.update(subset or permutation of the existing ids, the same coordinates, allow_overwrite=True) on the '
-        'object (histories construct -> update -> export; the mesh compared is the one the object reports after the update)')
+        'object (histories construct -> update -> export; the mesh compared is the one the object reports after the update); '
+        'stream "history": one live object per case goes through 2-8 steps drawn from {public modification (in-place through '
+        '.data / .values / the caller\'s own array, data setter, loc / iloc write-through, update / update_data / overwrite, '
+        'variables added / popped, elements.update with re-connected / dropped / added rows and new type blocks, new nodes, ids '
+        'setter), other query (to_meshio, ids2indices forms, UCD writer, to_first_order, cached graph queries), export (write("vtk") '
+        'or to_meshio() + meshio.write; new file / new directory / overwrite=True over the previous or a longer file)} with the '
+        'patterns [export, export], [export, modify, export], [modify, export], [query, export]; every export is judged against a '
+        'snapshot of the object\'s current public state taken just before it, must leave the object / caller arrays / earlier results '
+        'bit-identical, must repeat identically, and the last one must equal the export of a fresh object with the same content; '
+        'meshes there additionally: tet + quad together, one single element, tet2 beside other types, gapped small ids (2-3 dense '
+        'ranges separated by about n), element ids interleaving the types, element types inserted in non-canonical order, '
+        'variable names that are prefixes of each other; a history is non-trivial when it contains an export')
 ASSUMPTIONS = [
     'the VTK file encoding (binary legacy VTK 5.1) is meshio\'s, on both sides; meshio pads 2-component point data with a '
     'zero third component and reads (n,1) arrays back as (n,): compared up to that',
     'VTK node order of the first-order cells equals femio\'s order (line, triangle, quad, tetra, pyramid, wedge, hexahedron: '
     'hand specification from the VTK file-format document; femio\'s prism has the outward-pointing base triangle first, as VTK_WEDGE)',
     'variable names are plain identifiers',
+    'history stream: the mesh of the property at an export is the object\'s current public state as reported by nodes.ids / nodes.data, '
+    'the per-type blocks elements[t].ids / .data and nodal_data[k].ids / .data (the arrays a user reads and edits); after an in-place '
+    'edit through .data femio\'s second view (.data_frame, .loc) and the aggregate elements.data may lag behind - the export is held to '
+    'the .data view, which is the one the unchanged exporter reads',
+    'history stream: "the export does not modify the object" covers user data only (ids, both views of the data of nodes / element blocks / '
+    'nodal variables, container orders, caller arrays, earlier results); derived tables (id2index, aggregate element view) may be '
+    'refreshed by an export',
+    'history stream: nodal variables whose own id order differs from the nodes (e.g. after variable.update re-sorted it) are exported '
+    'positionally by design (DESIGN F9 class): labelled, their values not asserted; objects whose variables do not have one row per '
+    'node are outside the quantifier (labelled, nothing asserted); a public modifier that raises ends the history without a verdict',
 ]
 TRUSTED = ['C06: hand specifications in harness/c06.py (VTK cell-type names/numbers, VTK quadratic-tetra edge order) and '
            'in Props/C06.lean (vtkCellType, vtkTet2Edges, fistrTet2Edges)',
@@ -150,14 +187,17 @@ def mesh_after_update(m, upd):
     return update_nodes(G.to_femio(m), m, upd)
 
 
-def build(m, vs, upd=None):
+def build(m, vs, upd=None, keep=None):
+    """`keep` (dict): filled with the arrays handed to femio (the caller's arrays), for the history stream"""
     from femio import FEMAttribute
-    fd = G.to_femio(m)
+    fd = G.to_femio(m) if keep is None else to_femio_keep(m, keep)
     if upd is not None:
         update_nodes(fd, m, upd)
     for v in vs:
         data = np.array([[int(x) if v['int'] else float(x) for x in r] for r in v['rows']]).reshape(
             [len(v['ids'])] + list(v['shape']))
+        if keep is not None:
+            keep[('nodal', v['name'])] = data
         key, attr, how, nd = v['name'], v.get('attr', v['name']), v.get('how', 'setitem'), fd.nodal_data
         if how == 'set_attribute_data' and not (len(nd) and [int(i) for i in list(nd.values())[0].ids] == list(v['ids'])
                                                 and nd.are_same_lengths()):
@@ -411,6 +451,940 @@ def flush(ctx, pending):
     pending.clear()
 
 
+# ======================================================================================================================
+# stream `history` (inside the quantifier, reported through `fail`): ONE LIVE OBJECT is modified through public means,
+# queried and exported SEVERAL times.  The mesh of the property at an export is the object's CURRENT PUBLIC STATE
+# (`nodes.ids/.data`, per-type `elements[t].ids/.data`, `nodal_data[k].ids/.data`), copied out of the object just
+# before the export.  Per export:  (1) oracle and model on that snapshot;  (2) the export does not change the object,
+# the arrays the caller handed to femio at construction, or anything an EARLIER call returned (bit-exact);
+# (3) two exports with nothing in between give identical files;  (4) at the end an independently constructed FRESH
+# object with the same content gives the same file.
+# ======================================================================================================================
+
+class OpSkip(Exception):
+    """the drawn step cannot be applied to the object as it is now (nothing is reported)"""
+
+
+EDIT_KINDS = [('inplace', 30), ('setter', 13), ('loc', 13), ('update', 11), ('overwrite', 5), ('add-var', 5), ('pop-var', 3),
+              ('elements.update', 12), ('add-nodes', 5)]
+QUERIES = ['to_meshio', 'elements.to_meshio', 'nodal_data.to_meshio', 'ids2indices:dict', 'ids2indices:array',
+           'ids2indices:object', 'write:ucd', 'to_first_order', 'filter_with_ids', 'element-views', 'loc-read',
+           'adjacency', 'first_order_nodes']
+VAR_KEYS = ['N1', 'N10', 'N', 'N0x', 'N01', 'T', 'NODE_1', 'N2_', 'S']       # also prefixes of each other / of existing keys
+CACHED = ['calculate_adjacency_matrix_node', 'filter_first_order_nodes', 'calculate_adjacency_matrix',
+          'calculate_incidence_matrix']
+
+
+def gapped_ids(rnd, n):
+    """'sparse but small' ids: two or three dense ranges separated by gaps of about n (so that sums / differences /
+    offsets of ids collide with other ids or with positions)"""
+    k = 1 if n < 2 else 2 if n < 3 else rnd.choice([2, 2, 3])
+    cuts = sorted(rnd.sample(range(1, n), k - 1))
+    ids, start = [], rnd.choice([1, 1, 2, n])
+    for a, b in zip([0] + cuts, cuts + [n]):
+        ids += list(range(start, start + b - a))
+        start += (b - a) + n + rnd.randint(-1, 1)
+    return ids
+
+
+def renumber_monotone(m, node_ids=None, elem_ids=None):
+    """the same mesh under an order-preserving renumbering (storage order classes asc / desc / midshuf / swap2 and the
+    interleaving of element ids across types are kept)"""
+    out = dict(m)
+    if node_ids is not None:
+        f = dict(zip(sorted(i for i, _ in m['nodes']), sorted(node_ids)))
+        out['nodes'] = [(f[i], p) for i, p in m['nodes']]
+        out['blocks'] = {t: [(e, [f[n] for n in c]) for e, c in b] for t, b in m['blocks'].items()}
+        out['id_style'] = 'gapped'
+    if elem_ids is not None:
+        g = dict(zip(sorted(e for b in m['blocks'].values() for e, _ in b), sorted(elem_ids)))
+        out['blocks'] = {t: [(g[e], c) for e, c in b] for t, b in out['blocks'].items()}
+    return out
+
+
+def gen_mesh_h(rnd, quick=True):
+    """the meshes of the main stream plus the dimensions that realistic changes needed (DESIGN section 8, round 3): tet + quad
+    in one mesh (same node count, different VTK cell), exactly one element, tet2 next to other types, gapped small ids;
+    element-type insertion order is permuted by meshgen.to_femio / insertion_order for every mixed mesh"""
+    r = rnd.random()
+    dims = []
+    if r < .12:
+        types = ['quad', 'tet'] + rnd.sample([t for t in TYPES if t not in ('quad', 'tet')], rnd.choice([0, 0, 1, 2]))
+        m = G.gen_combinatorial(rnd, types=types, max_elems=8 if quick else 30)
+        dims.append('tet+quad')
+    elif r < .22:
+        m = G.gen_combinatorial(rnd, types=[rnd.choice(TYPES)], max_elems=1)
+        dims.append('single-element')
+    elif r < .32:
+        types = ['tet2'] + rnd.sample([t for t in TYPES if t != 'tet2'], rnd.choice([0, 1, 2]))
+        m = G.gen_combinatorial(rnd, types=types, max_elems=8 if quick else 30)
+        dims.append('tet2')
+    else:
+        m = gen_mesh(rnd, quick)
+    if 'geometric_tet2' not in m:
+        m['nodes'] = [(i, tuple(F(float(x)) for x in p)) for i, p in m['nodes']]
+    if rnd.random() < .25:
+        m = renumber_monotone(m, node_ids=gapped_ids(rnd, len(m['nodes'])))
+        dims.append('gapped-node-ids')
+    if rnd.random() < .25:
+        m = renumber_monotone(m, elem_ids=gapped_ids(rnd, sum(len(b) for b in m['blocks'].values())))
+        dims.append('gapped-element-ids')
+    by_id = sorted((e, t) for t, b in m['blocks'].items() for e, _ in b)
+    runs = sum(1 for k in range(1, len(by_id)) if by_id[k][1] != by_id[k - 1][1]) + 1
+    if len(m['blocks']) > 1 and runs > len(m['blocks']):
+        dims.append('element-ids-interleave-the-types')
+    m['dims'] = dims
+    return m
+
+
+def to_femio_keep(m, keep):
+    """meshgen.to_femio, keeping hold of the arrays handed to femio (the caller's arrays)"""
+    from femio import FEMData, FEMAttribute, FEMElementalAttribute
+    keep[('nodes', None, 'ids')] = np.array([i for i, _ in m['nodes']])
+    keep[('nodes', None)] = np.array([[float(v) for v in p] for _, p in m['nodes']])
+    el = {}
+    for t, b in m['blocks'].items():
+        keep[('conn', t, 'ids')] = np.array([e for e, _ in b])
+        keep[('conn', t)] = np.array([c for _, c in b])
+        el[t] = FEMAttribute(t, ids=keep[('conn', t, 'ids')], data=keep[('conn', t)], silent=True)
+    nodes = FEMAttribute('NODE', ids=keep[('nodes', None, 'ids')], data=keep[('nodes', None)], silent=True)
+    return G.quiet(lambda: FEMData(nodes=nodes, elements=FEMElementalAttribute('ELEMENT', G.insertion_order(el))))
+
+
+def etypes_of(fd):
+    """element types present, canonical order, computed without femio's overridden keys() / items()"""
+    return [t for t in G.ELEMENT_TYPES if dict.__contains__(fd.elements, t)]
+
+
+def _target(fd, fam, key):
+    try:
+        return fd.nodes if fam == 'nodes' else dict.__getitem__(fd.elements, key) if fam == 'conn' else fd.nodal_data[key]
+    except KeyError:
+        raise OpSkip('no such table')
+
+
+def var_keys(fd):
+    return [k for k in fd.nodal_data.keys() if k != 'NODE']
+
+
+def public_state(fd, base, geo):
+    """(mesh, variables) as the object reports them now: plain Python values copied out of the object"""
+    m = {'kind': base['kind'], 'order': base['order'], 'id_style': base.get('id_style'), 'geometric_tet2': bool(geo),
+         'nodes': [(int(i), tuple(F(float(x)) for x in row)) for i, row in zip(fd.nodes.ids, np.asarray(fd.nodes.data))],
+         'blocks': {t: [(int(e), [int(n) for n in c]) for e, c in zip(dict.__getitem__(fd.elements, t).ids,
+                                                                     np.asarray(dict.__getitem__(fd.elements, t).data))]
+                    for t in etypes_of(fd)}}
+    nids = [i for i, _ in m['nodes']]
+    vs = []
+    for k in var_keys(fd):
+        a = fd.nodal_data[k]
+        d = np.asarray(a.data)
+        integer = d.dtype.kind in 'iub'
+        v = {'name': k, 'attr': a.name, 'how': 'setitem', 'shape': list(d.shape[1:]), 'ids': [int(i) for i in a.ids], 'int': integer,
+             'rows': [[F(int(x)) if integer else F(float(x)) for x in np.ravel(r)] for r in d]}
+        if v['ids'] != nids:
+            v['misaligned'] = True
+        vs.append(v)
+    return m, vs
+
+
+def outside_reason(m, vs):
+    """-> None, or why the object no longer describes ONE mesh with nodal variables (labelled, nothing asserted)"""
+    nids = [i for i, _ in m['nodes']]
+    if len(set(nids)) != len(nids):
+        return 'duplicate node ids'
+    if any(n not in set(nids) for b in m['blocks'].values() for _, c in b for n in c):
+        return 'dangling node id'
+    if any(len(v['ids']) != len(nids) for v in vs):
+        return 'a nodal variable that does not have one row per node'
+    if not m['blocks'] or any(not b for b in m['blocks'].values()):
+        return 'no elements'
+    return None
+
+
+def _bits(a):
+    a = np.asarray(a)
+    if a.dtype == object:
+        return ('object', repr([np.asarray(x).tolist() for x in a]))
+    return (str(a.dtype), a.shape, a.tobytes())
+
+
+def raw_state(fd, keep, results):
+    """the user data the export must leave alone, bit-exact: ids and both public views (`.data`, `.data_frame`) of the
+    nodes, of every per-type element block and of every nodal variable, the insertion order of the containers, the arrays
+    the caller handed to femio, the arrays earlier calls returned.  Derived state (the id lookup table, the aggregate
+    element view) is deliberately not part of it: an export that refreshes a derived table is not a violation."""
+    s = {'nodes.ids': _bits(fd.nodes.ids), 'nodes.data': _bits(fd.nodes.data), 'nodes.data_frame': _bits(fd.nodes.data_frame.values),
+         'elements: insertion order': list(dict.keys(fd.elements)), 'nodal_data: keys': list(fd.nodal_data.keys())}
+    for t in dict.keys(fd.elements):
+        b = dict.__getitem__(fd.elements, t)
+        s[f'elements[{t}].ids'], s[f'elements[{t}].data'] = _bits(b.ids), _bits(b.data)
+        s[f'elements[{t}].data_frame'] = _bits(b.data_frame.values)
+    for k in fd.nodal_data.keys():
+        a = fd.nodal_data[k]
+        s[f'nodal_data[{k}].ids'], s[f'nodal_data[{k}].data'], s[f'nodal_data[{k}].name'] = _bits(a.ids), _bits(a.data), a.name
+        s[f'nodal_data[{k}].data_frame'] = _bits(a.data_frame.values)
+    for k, a in keep.items():
+        s['array handed to femio by the caller: ' + ':'.join(str(x) for x in k if x is not None)] = _bits(a)
+    for label, arrays in results:
+        for j, a in enumerate(arrays):
+            s[f'array returned earlier by {label} #{j}'] = _bits(a)
+    return s
+
+
+def coherent(fd):
+    """hypothesis of `C06_history_export`: the lookup table of the nodes is `enumerate(nodes.ids)`"""
+    t = fd.nodes.id2index
+    return (np.array_equal(np.asarray(t.index.values), np.asarray(fd.nodes.ids))
+            and np.array_equal(np.ravel(t.values), np.arange(len(fd.nodes.ids))))
+
+
+def ids_setter_refreshes():
+    """which configuration the tree implements: does `FEMAttribute.ids = ...` refresh `id2index`? (`Cfg.idsSetterRefreshes`)"""
+    from femio import FEMAttribute
+    a = FEMAttribute('NODE', ids=np.array([3, 1, 2]), data=np.zeros((3, 3)), silent=True, generate_id2index=True)
+    a.ids = np.array([30, 10, 20])
+    return [int(i) for i in a.id2index.index.values] == [30, 10, 20]
+
+
+# ---- edits --------------------------------------------------------------------------------------------------------
+
+def _fval(rnd, integer=False, lim=4000):
+    return rnd.randint(-lim, lim) if integer else float(F(rnd.randint(-lim, lim), rnd.choice([1, 2, 4, 8])))
+
+
+def _new_data(rnd, fam, n, shape, integer, nids, arity=None):
+    if fam == 'conn':
+        return [rnd.sample(nids, arity) for _ in range(n)]
+    width = int(np.prod(shape)) if shape else 1
+    lim = 40 if fam == 'nodes' else 4000
+    return [[_fval(rnd, integer, lim) for _ in range(width)] for _ in range(n)]
+
+
+def _arr(op, fam=None):
+    fam = fam or op.get('fam')
+    dt = int if (fam == 'conn' or op.get('int')) else float
+    return np.array(op['data'], dtype=dt).reshape([len(op['data'])] + list(op['shape']))
+
+
+def _pick(rnd, weighted):
+    tot = sum(w for _, w in weighted)
+    r = rnd.random() * tot
+    for k, w in weighted:
+        r -= w
+        if r < 0:
+            return k
+    return weighted[-1][0]
+
+
+def _fresh_ints(rnd, used, k):
+    """k positive ints not in `used`, close to them (between, just below, just above; never enumerates the id range)"""
+    used = set(used)
+    pool = sorted({u + d for u in used for d in (-2, -1, 1, 2, len(used), len(used) + 1)} - used)
+    pool = [i for i in pool if i > 0]
+    top = max(used)
+    while len(pool) < k:
+        top += 1
+        if top not in pool:
+            pool.append(top)
+    return rnd.sample(pool, k)
+
+
+def draw_inplace_edit(rnd, fd, fam, key, nids):
+    a = _target(fd, fam, key)
+    arr = np.asarray(a.data)
+    n = len(arr)
+    row = rnd.randrange(n)
+    op = {'op': 'inplace', 'fam': fam, 'key': key, 'row': row, 'via': rnd.choice(['data', 'data', 'data', 'values', 'caller'])}
+    if fam == 'conn':
+        cur = [int(x) for x in arr[row]]
+        others = [i for i in nids if i not in cur]
+        if others and rnd.random() < .6:
+            op.update(how='cell', j=rnd.randrange(len(cur)), val=rnd.choice(others))
+        else:
+            new = list(cur)
+            while new == cur:
+                rnd.shuffle(new)
+            op.update(how='row=', vals=new)
+        return op
+    integer = arr.dtype.kind in 'iub'
+    width = int(np.prod(arr.shape[1:])) if arr.ndim > 1 else 1
+    lim = 40 if fam == 'nodes' else 4000
+    how = rnd.choice(['cell', 'row=', 'row+='])
+    if how == 'cell':
+        op.update(how=how, j=rnd.randrange(width), val=_fval(rnd, integer, lim))
+    else:
+        op.update(how=how, vals=[_fval(rnd, integer, lim) for _ in range(width)])
+    return op
+
+
+def _edit_array(arr, op):
+    row = op['row']
+    if row >= len(arr):
+        raise OpSkip('row out of range')
+    tail = arr.shape[1:]
+    if op['how'] == 'cell':
+        if arr.ndim == 1:
+            arr[row] = op['val']
+        else:
+            if op['j'] >= int(np.prod(tail)):
+                raise OpSkip('column out of range')
+            arr[(row,) + tuple(int(x) for x in np.unravel_index(op['j'], tail))] = op['val']
+    else:
+        if len(op['vals']) != (int(np.prod(tail)) if tail else 1):
+            raise OpSkip('row width changed')
+        v = np.array(op['vals'], dtype=arr.dtype).reshape(tail) if tail else arr.dtype.type(op['vals'][0])
+        if op['how'] == 'row=':
+            arr[row] = v
+        else:
+            arr[row] += v
+
+
+def draw_edit(rnd, fd, st):
+    nids = [int(i) for i in fd.nodes.ids]
+    types, vkeys = etypes_of(fd), var_keys(fd)
+    kind = _pick(rnd, EDIT_KINDS)
+    fams = [('nodes', None)] + [('conn', t) for t in types] + [('nodal', k) for k in vkeys]
+
+    def fam_key(allowed):
+        fam = rnd.choice([f for f in allowed if any(x[0] == f for x in fams)])
+        return rnd.choice([x for x in fams if x[0] == fam])
+    if kind == 'inplace':
+        fam, key = fam_key(['nodes', 'conn', 'nodal'])
+        return draw_inplace_edit(rnd, fd, fam, key, nids)
+    if kind == 'setter':
+        fam, key = fam_key(['nodes', 'conn', 'nodal'])
+        a = _target(fd, fam, key)
+        d = np.asarray(a.data)
+        shape, integer = list(d.shape[1:]), d.dtype.kind in 'iub'
+        if fam == 'nodal' and rnd.random() < .25:
+            shape = list(rnd.choice(SHAPES))
+        op = {'op': 'setter', 'fam': fam, 'key': key, 'shape': shape, 'int': integer,
+              'via': rnd.choice(['data', 'data', 'update_data'] + (['elements.data'] if fam == 'conn' and len(types) == 1 else [])),
+              'data': _new_data(rnd, fam, len(d), shape, integer, nids, d.shape[1] if fam == 'conn' else None)}
+        if rnd.random() < .3 and shape == list(d.shape[1:]):      # ... and the caller goes on using the array it assigned
+            al = draw_inplace_edit(rnd, fd, fam, key, nids)
+            al['via'] = 'assigned'
+            op['alias'] = al
+        return op
+    if kind == 'loc':
+        fam, key = fam_key(['nodes', 'conn', 'nodal'])
+        a = _target(fd, fam, key)
+        d = np.asarray(a.data)
+        ids = [int(i) for i in a.ids]
+        via = rnd.choice(['loc', 'loc', 'loc-scalar', 'iloc', 'iloc-slice'])
+        if via == 'loc':
+            sel = rnd.sample(ids, rnd.randint(1, min(len(ids), 4)))
+        elif via == 'loc-scalar':
+            sel = [rnd.choice(ids)]
+        elif via == 'iloc':
+            sel = rnd.sample(range(len(ids)), rnd.randint(1, min(len(ids), 4)))
+        else:
+            lo = rnd.randrange(len(ids))
+            sel = [lo, rnd.randint(lo + 1, min(len(ids), lo + 4))]
+        k = sel[1] - sel[0] if via == 'iloc-slice' else len(sel)
+        shape, integer = list(d.shape[1:]), d.dtype.kind in 'iub'
+        return {'op': 'loc', 'fam': fam, 'key': key, 'via': via, 'sel': sel, 'shape': shape, 'int': integer,
+                'data': _new_data(rnd, fam, k, shape, integer, nids, d.shape[1] if fam == 'conn' else None)}
+    if kind == 'update':
+        fam, key = fam_key(['nodes', 'nodal'])
+        a = _target(fd, fam, key)
+        d = np.asarray(a.data)
+        ids = [int(i) for i in a.ids]
+        sub = rnd.sample(ids, rnd.choice([1, rnd.randint(1, len(ids)), len(ids)]))
+        shape, integer = list(d.shape[1:]), d.dtype.kind in 'iub'
+        return {'op': 'update', 'fam': fam, 'key': key, 'via': rnd.choice(['update', 'update_data']), 'ids': sub, 'shape': shape,
+                'int': integer, 'data': _new_data(rnd, fam, len(sub), shape, integer, nids), 'realign': rnd.random() < .5}
+    if kind == 'overwrite':
+        if not vkeys:
+            raise OpSkip('no variable')
+        key = rnd.choice(vkeys)
+        d = np.asarray(fd.nodal_data[key].data)
+        shape, integer = list(d.shape[1:]), d.dtype.kind in 'iub'
+        return {'op': 'overwrite', 'key': key, 'shape': shape, 'int': integer, 'ids': list(nids) if rnd.random() < .5 else None,
+                'data': _new_data(rnd, 'nodal', len(d), shape, integer, nids)}
+    if kind == 'add-var':
+        free = [k for k in VAR_KEYS if k not in fd.nodal_data.keys()]
+        if not free or len(vkeys) >= 6:
+            raise OpSkip('enough variables')
+        key = rnd.choice(free)
+        shape, integer = list(rnd.choice(SHAPES)), rnd.random() < .2
+        return {'op': 'add-var', 'key': key, 'attr': rnd.choice([key, key, 'S', vkeys[0] if vkeys else key]), 'shape': shape, 'int': integer,
+                'how': rnd.choice(['setitem', 'update', 'set_attribute_data', 'update_data']), 'ids': list(nids),
+                'data': _new_data(rnd, 'nodal', len(nids), shape, integer, nids)}
+    if kind == 'pop-var':
+        if len(vkeys) < 2:
+            raise OpSkip('keep one variable')
+        return {'op': 'pop-var', 'key': rnd.choice(vkeys)}
+    if kind == 'elements.update':
+        eids = {t: [int(e) for e in dict.__getitem__(fd.elements, t).ids] for t in types}
+        used = [e for v in eids.values() for e in v]
+        absent = [t for t in TYPES if t not in types and G.ARITY[t] <= len(nids)]
+        if absent and rnd.random() < .45:        # a block of a type the mesh did not have: inserted LAST, wherever it sorts canonically
+            t = rnd.choice(absent)
+            ids = _fresh_ints(rnd, used, rnd.randint(1, 3))
+        else:                                    # an existing block replaced: rows re-ordered, re-connected, dropped, added
+            t = rnd.choice(types)
+            ids = list(eids[t])
+            rnd.shuffle(ids)
+            r = rnd.random()
+            if r < .3 and len(ids) > 1:
+                ids = ids[:rnd.randint(1, len(ids) - 1)]
+            elif r < .6:
+                ids += _fresh_ints(rnd, used, rnd.randint(1, 2))
+        return {'op': 'elements.update', 'blocks': {t: {'ids': ids, 'conn': [rnd.sample(nids, G.ARITY[t]) for _ in ids]}}}
+    if kind == 'add-nodes':
+        new = _fresh_ints(rnd, nids, rnd.randint(1, 3))
+        vars_ = {}
+        for k in vkeys:
+            d = np.asarray(fd.nodal_data[k].data)
+            vars_[k] = {'shape': list(d.shape[1:]), 'int': d.dtype.kind in 'iub',
+                        'data': _new_data(rnd, 'nodal', len(new), list(d.shape[1:]), d.dtype.kind in 'iub', nids)}
+        return {'op': 'add-nodes', 'ids': new, 'shape': [3], 'data': _new_data(rnd, 'nodes', len(new), [3], False, nids), 'vars': vars_}
+    raise ValueError(kind)
+
+
+def draw_renumber(rnd, fd):
+    """node ids replaced through the public `ids` setter of the nodes and of every nodal variable, the connectivity
+    rewritten accordingly (separately labelled sub-stream `ids-setter`)"""
+    nids = [int(i) for i in fd.nodes.ids]
+    r = rnd.random()
+    if r < .35:
+        shift = rnd.choice([1, len(nids), 1000])
+        new = [i + shift for i in nids]
+    elif r < .7:
+        new = list(nids)
+        while len(new) > 1 and new == nids:
+            rnd.shuffle(new)                     # the same id set, bound to other nodes
+    else:
+        new = _fresh_ints(rnd, [max(nids)], len(nids))
+    return {'op': 'renumber-nodes', 'map': [[a, b] for a, b in zip(nids, new)], 'conn_via': rnd.choice(['setter', 'elements.update'])}
+
+
+def _realign(fd, skip):
+    """every other id-keyed table of the object goes through the same public update (with its own first row), which
+    re-sorts it by id as the update re-sorted the table of `skip`: the tables stay aligned with each other"""
+    seen = {id(skip)}
+    for b in [fd.nodes] + [fd.nodal_data[k] for k in var_keys(fd)]:
+        if id(b) in seen:
+            continue
+        seen.add(id(b))
+        b.update(np.array([int(b.ids[0])]), np.array(b.data[0:1]), allow_overwrite=True)
+
+
+def apply_edit(fd, op, keep):
+    from femio import FEMAttribute
+    o, fam, key = op['op'], op.get('fam'), op.get('key')
+    if o == 'inplace':
+        a = _target(fd, fam, key)
+        if op['via'] == 'caller':
+            arr = keep.get((fam, key))
+            if arr is None or arr.shape != np.shape(a.data) or not arr.flags.writeable:
+                raise OpSkip('no caller array of that table')
+        else:
+            arr = a.values if op['via'] == 'values' else a.data
+        if not arr.flags.writeable:
+            # numpy refuses (arrays that came out of a pandas frame are read-only): the user copies, edits, assigns
+            arr = np.array(arr)
+            _edit_array(arr, op)
+            a.data = arr
+            return 'read-only: copied, edited, assigned through the data setter'
+        _edit_array(arr, op)
+    elif o == 'setter':
+        a = _target(fd, fam, key)
+        arr = _arr(op)
+        if len(arr) != len(a.ids):
+            raise OpSkip('length changed')
+        if op['via'] == 'elements.data':
+            if len(etypes_of(fd)) != 1:
+                raise OpSkip('mixed')
+            fd.elements.data = arr
+        elif op['via'] == 'update_data':
+            a.update_data(arr)
+        else:
+            a.data = arr
+        if op.get('alias'):
+            _edit_array(arr, op['alias'])
+    elif o == 'loc':
+        a, arr, sel = _target(fd, fam, key), _arr(op), op['sel']
+        ids = [int(i) for i in a.ids]
+        if op['via'] in ('loc', 'loc-scalar'):
+            if any(i not in ids for i in sel):
+                raise OpSkip('id gone')
+            sub = a.loc[sel] if op['via'] == 'loc' else a.loc[sel[0]]
+        else:
+            if max(sel) > len(ids) - (0 if op['via'] == 'iloc-slice' else 1):
+                raise OpSkip('position gone')
+            sub = a.iloc[sel] if op['via'] == 'iloc' else a.iloc[sel[0]:sel[1]]
+        if list(np.shape(sub.data)) != list(arr.shape):
+            raise OpSkip('shape changed')
+        sub.data = arr
+    elif o == 'update':
+        a, arr = _target(fd, fam, key), _arr(op)
+        if any(i not in set(int(x) for x in a.ids) for i in op['ids']) or list(np.shape(a.data)[1:]) != op['shape']:
+            raise OpSkip('id gone / shape changed')
+        if op['via'] == 'update_data':
+            fd.nodal_data.update_data(np.array(op['ids']), {'NODE' if fam == 'nodes' else key: arr}, allow_overwrite=True)
+        else:
+            a.update(np.array(op['ids']), arr, allow_overwrite=True)
+        if op.get('realign'):
+            _realign(fd, a)
+    elif o == 'overwrite':
+        if key not in fd.nodal_data.keys() or len(op['data']) != len(fd.nodal_data[key].ids):
+            raise OpSkip('variable gone / length changed')
+        if op['ids'] is None:
+            fd.nodal_data.overwrite(key, _arr(op, 'nodal'))
+        else:
+            fd.nodal_data.overwrite(key, _arr(op, 'nodal'), ids=np.array(op['ids']))
+    elif o == 'add-var':
+        nd, arr = fd.nodal_data, _arr(op, 'nodal')
+        if key in nd.keys() or op['ids'] != [int(i) for i in fd.nodes.ids]:
+            raise OpSkip('key exists / nodes changed')
+        how = op['how']
+        if how == 'set_attribute_data' and not nd.are_same_lengths():
+            how = 'setitem'
+        if how == 'set_attribute_data':       # binds the rows to the ids of the first attribute (NODE = the nodes)
+            nd.set_attribute_data(key, arr, name=op['attr'])
+        elif how == 'update_data':
+            nd.update_data(np.array(op['ids']), {key: arr})
+        elif how == 'update':
+            nd.update({key: FEMAttribute(op['attr'], np.array(op['ids']), arr, silent=True)})
+        else:
+            nd[key] = FEMAttribute(op['attr'], np.array(op['ids']), arr, silent=True)
+    elif o == 'pop-var':
+        if key not in fd.nodal_data.keys():
+            raise OpSkip('variable gone')
+        fd.nodal_data.pop(key)
+    elif o == 'elements.update':
+        nids = set(int(i) for i in fd.nodes.ids)
+        for t, b in op['blocks'].items():
+            others = {int(e) for u in etypes_of(fd) if u != t for e in dict.__getitem__(fd.elements, u).ids}
+            if any(n not in nids for c in b['conn'] for n in c) or others & set(b['ids']):
+                raise OpSkip('node gone / element id taken')
+        fd.elements.update({t: FEMAttribute(t, ids=np.array(b['ids']), data=np.array(b['conn']), silent=True)
+                            for t, b in op['blocks'].items()})
+    elif o == 'add-nodes':
+        if set(op['ids']) & set(int(i) for i in fd.nodes.ids) or set(op['vars']) != set(var_keys(fd)):
+            raise OpSkip('ids taken / variables changed')
+        for k, v in op['vars'].items():
+            if list(np.shape(fd.nodal_data[k].data)[1:]) != v['shape']:
+                raise OpSkip('shape changed')
+        fd.nodes.update(np.array(op['ids']), _arr(op, 'nodes'), allow_overwrite=True)
+        seen = {id(fd.nodes)}
+        for k, v in op['vars'].items():
+            a = fd.nodal_data[k]
+            if id(a) not in seen:
+                seen.add(id(a))
+                a.update(np.array(op['ids']), _arr(v, 'nodal'), allow_overwrite=True)
+    elif o == 'renumber-nodes':
+        f = {int(a): int(b) for a, b in op['map']}
+        if set(f) != set(int(i) for i in fd.nodes.ids):
+            raise OpSkip('nodes changed')
+        new = {t: np.array([[f[int(n)] for n in row] for row in dict.__getitem__(fd.elements, t).data]) for t in etypes_of(fd)}
+        seen = set()
+        for a in [fd.nodes] + [fd.nodal_data[k] for k in var_keys(fd)]:
+            if id(a) not in seen and set(int(i) for i in a.ids) <= set(f):
+                seen.add(id(a))
+                a.ids = np.array([f[int(i)] for i in a.ids])
+        if op['conn_via'] == 'setter':
+            for t, c in new.items():
+                dict.__getitem__(fd.elements, t).data = c
+        else:
+            fd.elements.update({t: FEMAttribute(t, ids=np.array(dict.__getitem__(fd.elements, t).ids), data=c, silent=True)
+                                for t, c in new.items()})
+    else:
+        raise ValueError(o)
+    return None
+
+
+def edit_label(op):
+    o = op['op']
+    if o in ('inplace', 'setter', 'loc', 'update'):
+        fam = op['fam']
+        tab = 'nodes' if fam == 'nodes' else f"elements[{op['key']}]" if fam == 'conn' else f"nodal_data[{op['key']}]"
+        if o == 'inplace':
+            src = {'caller': 'the array handed to femio at construction (', 'values': tab + '.values ('}.get(op['via'], tab + '.data (')
+            return f"in-place edit of {src}{op['how']} row {op['row']})"
+        if o == 'setter':
+            return (f"fd.elements.data = new" if op['via'] == 'elements.data' else f"{tab}.update_data(new)" if op['via'] == 'update_data'
+                    else f"{tab}.data = new") + (' + in-place edit of the assigned array' if op.get('alias') else '')
+        if o == 'loc':
+            return f"{tab}.{op['via']}[{op['sel']}].data = rows"
+        return f"{tab}.{op['via']}({len(op['ids'])} existing ids, new rows, allow_overwrite=True)" + (' + realign' if op.get('realign') else '')
+    if o == 'overwrite':
+        return f"nodal_data.overwrite({op['key']}, new" + (', ids=node ids)' if op['ids'] is not None else ')')
+    if o == 'add-var':
+        return f"new nodal variable {op['key']} by {op['how']}"
+    if o == 'pop-var':
+        return f"nodal_data.pop({op['key']})"
+    if o == 'elements.update':
+        return 'elements.update({' + ', '.join(f'{t}: {len(b["ids"])} rows' for t, b in op['blocks'].items()) + '})'
+    if o == 'add-nodes':
+        return f"nodes.update({len(op['ids'])} new ids) + every variable.update(the same ids)"
+    if o == 'renumber-nodes':
+        return f"node ids renumbered through the ids setter (connectivity by {op['conn_via']})"
+    return o
+
+
+def edit_class(op):
+    o = op['op']
+    if o in ('inplace', 'setter', 'loc', 'update'):
+        extra = ':' + op['via'] if o in ('inplace', 'loc') else ''
+        return f"{o}:{ {'nodes': 'coordinates', 'conn': 'connectivity', 'nodal': 'nodal variable'}[op['fam']] }{extra}"
+    return o
+
+
+# ---- queries ------------------------------------------------------------------------------------------------------
+
+def run_query(ctx, fd, step, st):
+    """other public calls on the same object between modifications and exports (what they return is kept and must not be
+    changed by a later export; what they do to the object is not C06's business - the snapshot is taken afterwards)"""
+    q, rnd_ids = step['q'], step.get('ids')
+    ret = None
+    if q == 'to_meshio':
+        mm = fd.to_meshio()
+        ret = [mm.points] + [cb.data for cb in mm.cells] + list(mm.point_data.values())
+    elif q == 'elements.to_meshio':
+        ret = list(fd.elements.to_meshio(fd.nodes).values())
+    elif q == 'nodal_data.to_meshio':
+        ret = list(fd.nodal_data.to_meshio().values())
+    elif q == 'ids2indices:dict':
+        got = fd.nodes.ids2indices(fd.elements)
+        pos = {int(i): k for k, i in enumerate(fd.nodes.ids)}
+        want = [[[pos[int(n)] for n in row] for row in dict.__getitem__(fd.elements, t).data] for t in etypes_of(fd)]
+        ctx.count('history:query:nodes.ids2indices(elements) ' + ('= positions, canonical type order'
+                                                                  if [np.asarray(g).tolist() for g in got] == want else 'DIFFERS (not a clause of C06)'))
+        ret = [np.asarray(g) for g in got]
+    elif q == 'ids2indices:array':
+        ret = [fd.nodes.ids2indices(np.array(rnd_ids))]
+    elif q == 'ids2indices:object':
+        ret = [fd.nodes.ids2indices(np.array(rnd_ids, dtype=object))]
+    elif q == 'write:ucd':
+        p = st['dir'] / f"q{st['n_files']}.inp"
+        st['n_files'] += 1
+        fd.write('ucd', str(p))
+    elif q == 'to_first_order':
+        ret = [np.asarray(v.data) for v in fd.elements.to_first_order().values()]
+    elif q == 'filter_with_ids':
+        ret = [fd.nodes.filter_with_ids(np.array(rnd_ids)).data]
+    elif q == 'element-views':
+        ret = [fd.elements.ids, fd.elements.types, fd.elements.to_vtk(fd.nodes)]
+    elif q == 'loc-read':
+        ret = [fd.nodes.loc[rnd_ids].data] + [fd.nodal_data.get_attribute_data(k) for k in var_keys(fd)[:2]]
+    elif q == 'adjacency':
+        fd.calculate_adjacency_matrix_node()
+    elif q == 'first_order_nodes':
+        ret = [np.asarray(fd.filter_first_order_nodes())]
+    else:
+        raise ValueError(q)
+    if ret is not None:
+        st['results'].append((q, [a for a in ret if isinstance(a, np.ndarray) and a.dtype != object]))
+
+
+def draw_query(rnd, fd):
+    q = rnd.choice(QUERIES)
+    step = {'step': 'query', 'q': q}
+    if q in ('ids2indices:array', 'ids2indices:object', 'filter_with_ids', 'loc-read'):
+        ids = [int(i) for i in fd.nodes.ids]
+        step['ids'] = rnd.sample(ids, rnd.randint(1, min(4, len(ids))))
+    return step
+
+
+# ---- exports ------------------------------------------------------------------------------------------------------
+
+def read_vtk(path):
+    import meshio
+    mm = G.quiet(meshio.read, str(path))
+    points = [[F(float(x)) for x in p] for p in np.asarray(mm.points)]
+    cells = [(cb.type, [[int(k) for k in r] for r in cb.data]) for cb in mm.cells]
+    pd = {k: [[F(float(x)) for x in np.ravel(r)] for r in v] for k, v in mm.point_data.items()}
+    return {'points': points, 'cells': cells, 'point_data': pd}
+
+
+def do_export(fd, step, st):
+    """-> ('ok', parsed file) | ('err', class).  `path`: a new file, a new file in a directory that does not exist yet, the file
+    of the previous export rewritten with overwrite=True, a longer pre-existing VTK file rewritten with overwrite=True"""
+    import meshio
+    how = step['path']
+    if how in ('same', 'prefilled') and st['last_path'] is None:
+        how = 'new'
+    if how == 'same':
+        p = st['last_path']
+    elif how == 'newdir':
+        p = st['dir'] / f"d{st['n_files']}" / 'sub' / 'mesh.vtk'
+    else:
+        p = st['dir'] / f"e{st['n_files']}.vtk"
+    st['n_files'] += 1
+    if how == 'prefilled':
+        old = st['last_path'].read_bytes()
+        p.write_bytes(old + old[len(old) // 2:])
+    try:
+        with contextlib.redirect_stderr(io.StringIO()):
+            if step['via'] == 'to_meshio':
+                mm = G.quiet(fd.to_meshio)
+                st['results'].append(('to_meshio', [mm.points] + [cb.data for cb in mm.cells] + list(mm.point_data.values())))
+                p.parent.mkdir(parents=True, exist_ok=True)
+                meshio.write(str(p), mm, file_format='vtk')
+            else:
+                G.quiet(fd.write, 'vtk', str(p), overwrite=how in ('same', 'prefilled'))
+    except tuple(ERR) as e:
+        return 'err', next(v for k, v in ERR.items() if isinstance(e, k)) + f' ({type(e).__name__}: {str(e)[:120]})'
+    except Exception as e:  # noqa
+        return 'err', 'exc:' + type(e).__name__ + f' ({str(e)[:120]})'
+    st['last_path'] = p
+    return 'ok', read_vtk(p)
+
+
+def step_label(s):
+    if s['step'] == 'export':
+        return f"EXPORT[{'write(vtk)' if s['via'] == 'write' else 'to_meshio() + meshio.write'}, {s['path']}]"
+    if s['step'] == 'query':
+        return 'query ' + s['q']
+    return edit_label(s)
+
+
+def draw_plan(rnd, ids_setter=False):
+    """kinds of the steps of one history; always ends with an export; the patterns [export, export],
+    [export, edit, export], [edit, export], [query, export] all occur often"""
+    r = rnd.random()
+    if r < .15:
+        plan = ['export', 'export']
+    elif r < .35:
+        plan = ['export', 'edit', 'export']
+    elif r < .5:
+        plan = ['edit', 'export', 'export']
+    else:
+        plan = [_pick(rnd, [('edit', 50), ('query', 20), ('export', 30)]) for _ in range(rnd.randint(1, 5))] + ['export']
+        if rnd.random() < .5:
+            plan.insert(rnd.randrange(len(plan)), 'export')
+    if ids_setter:
+        last = max(k for k, s in enumerate(plan) if s == 'export')
+        plan.insert(rnd.randint(0, last), 'renumber')
+    return plan
+
+
+def run_history(ctx, m, vs, plan=None, steps=None, rnd=None, pending=None, quiet_counts=False):
+    """executes one history on ONE live object; `plan` (kinds, concrete steps drawn from `rnd` against the live object) or
+    `steps` (concrete, replay / shrinking).  -> (steps executed, failures [(signature, text, index of the export, observed)])"""
+    import shutil
+    from femio import FEMData
+    count = (lambda *a: None) if quiet_counts else ctx.count
+    for name in CACHED:
+        f = getattr(FEMData, name, None)
+        if f is not None and hasattr(f, 'cache_clear'):
+            f.cache_clear()
+    _N[0] += 1
+    st = {'dir': ctx.tmp / f'hist{_N[0]}', 'n_files': 0, 'last_path': None, 'results': [], 'keep': {}}
+    st['dir'].mkdir(parents=True, exist_ok=True)
+    done, fails = [], []
+    geo = bool(m.get('geometric_tet2'))
+    used_ids_setter = False
+    try:
+        try:
+            fd = build(m, vs, keep=st['keep'])
+        except Exception as e:  # noqa
+            count('history:construction-raised:' + type(e).__name__)
+            return done, fails
+        prev = None            # (parsed file of the last export, nothing happened since)
+        last_ok = None
+        todo = list(steps) if steps is not None else list(plan)
+        for k, item in enumerate(todo):
+            kind = item if steps is None else item['step']
+            if kind == 'renumber':
+                kind = 'edit'
+            # -- concrete step
+            if steps is None:
+                step = None
+                for _ in range(6):
+                    try:
+                        if item == 'renumber':
+                            step = dict(draw_renumber(rnd, fd), step='edit')
+                        elif kind == 'edit':
+                            step = dict(draw_edit(rnd, fd, st), step='edit')
+                        elif kind == 'query':
+                            step = draw_query(rnd, fd)
+                        else:
+                            step = {'step': 'export', 'via': rnd.choice(['write', 'write', 'write', 'to_meshio']),
+                                    'path': rnd.choice(['new', 'new', 'newdir', 'same', 'same', 'prefilled'])}
+                        break
+                    except OpSkip:
+                        continue
+                if step is None:
+                    continue
+            else:
+                step = item
+            # -- execute
+            if kind == 'edit':
+                try:
+                    note = G.quiet(apply_edit, fd, step, st['keep'])
+                except OpSkip as e:
+                    count('history:step-not-applicable')
+                    continue
+                except Exception as e:  # noqa   a public modifier that raises is not an observation about the export
+                    count(f"history:modifier-raised:{edit_class(step)}:{type(e).__name__}")
+                    done.append(step)
+                    break
+                if step['op'] == 'renumber-nodes':
+                    used_ids_setter = True
+                if step['op'] != 'pop-var' and step.get('fam') != 'nodal' and step['op'] not in ('overwrite', 'add-var'):
+                    geo = False
+                count('history:edit:' + edit_class(step) + (' [' + note.split(':')[0] + ']' if note else ''))
+                done.append(step)
+                prev = None
+            elif kind == 'query':
+                try:
+                    with contextlib.redirect_stderr(io.StringIO()):
+                        G.quiet(run_query, ctx, fd, step, st)
+                    count('history:query:' + step['q'])
+                except Exception as e:  # noqa
+                    count(f"history:query-raised:{step['q']}:{type(e).__name__}")
+                done.append(step)
+            else:
+                ms, vss = public_state(fd, m, geo)
+                why = outside_reason(ms, vss)
+                if why:
+                    count('history:outside:' + why)
+                    done.append(step)
+                    break
+                # hypothesis of the Lean history theorem (`Coherent`): evaluated on the live object before every export
+                stale = not coherent(fd)
+                count('history:export:nodes.id2index ' + ('= enumerate(nodes.ids)' if not stale else 'STALE'))
+                if stale and not (used_ids_setter and not _CFG.get('ids_setter_refreshes')):
+                    fails.append(('tie', 'history hypothesis', len(done), 'nodes.id2index != enumerate(nodes.ids) before the export'))
+                before = raw_state(fd, st['keep'], st['results'])
+                n_res = len(st['results'])
+                impl = do_export(fd, step, st)
+                after = raw_state(fd, st['keep'], st['results'][:n_res])
+                done.append(step)
+                idx = len(done) - 1
+                changed = [key for key in before if after.get(key) != before[key]] + [key for key in after if key not in before]
+                here = []
+                if changed:
+                    here.append(('export-modifies-object', 'the export changed ' + '; '.join(changed[:6]), idx, changed[:12]))
+                if impl[0] == 'ok':
+                    for sig, text in oracle(ms, vss, impl[1]):
+                        here.append((sig, text, idx, text))
+                    if prev is not None and prev != impl[1]:
+                        here.append(('second-export-differs', 'two exports of the same object with nothing in between give different files '
+                                     f"(cells {prev['cells'][:2]} then {impl[1]['cells'][:2]})", idx, impl[1]['cells'][:3]))
+                    prev = impl[1]
+                    last_ok = (ms, vss, impl[1])
+                else:
+                    here.append(('raises', f'the export raised {impl[1]} on a mesh inside the quantifier', idx, impl[1]))
+                    prev = None
+                    last_ok = None
+                if here and stale and used_ids_setter:
+                    # separately labelled sub-stream: ONE signature for whatever follows from the table that the `ids`
+                    # setter left stale (observed: nodes.id2index != enumerate(nodes.ids) just before this export)
+                    here = [('ids-setter:stale-id2index', 'after node ids were replaced through the public `ids` setter the lookup table of the '
+                             'nodes still holds the old ids, and the export translates with it: ' + here[0][1], idx, here[0][3])]
+                fails += here
+                count('history:export:' + step['via'] + ':' + step['path'] + ':' + (impl[0] if impl[0] == 'ok' else 'raised'))
+                for v in vss:
+                    if v.get('misaligned'):
+                        count('history:export:variable with its own id order (labelled, positional values not asserted)')
+                if pending is not None and not (stale and used_ids_setter):
+                    # (with the table left stale by the upstream `ids` setter the model of the export is `exportObj` on the
+                    # stale table - `C06_ids_setter_counterexample` -, not `toMeshio` of the public state: not compared)
+                    pending.append((ms, vss, (impl[0], impl[1] if impl[0] == 'ok' else impl[1].split(' ')[0]), 'history',
+                                    {'mesh_at_export': G.describe(ms), 'step': idx}))
+                if any(f[0] != 'tie' for f in fails):
+                    break
+        # -- an independently constructed fresh object with the same content gives the same file
+        if all(f[0] == 'tie' for f in fails) and last_ok is not None and done and done[-1]['step'] == 'export':
+            ms, vss, out = last_ok
+            fresh = run_real(ctx, ms, vss)
+            if fresh[0] != 'ok' or fresh[1] != out:
+                fails.append(('differs-from-fresh-object', 'the file differs from the file of an independently constructed object with the '
+                              'same nodes, elements and nodal variables '
+                              f"(cells {out['cells'][:2]} vs {fresh[1]['cells'][:2] if fresh[0] == 'ok' else fresh[1]})", len(done) - 1,
+                              out['cells'][:3]))
+    finally:
+        shutil.rmtree(st['dir'], ignore_errors=True)
+    return done, fails
+
+
+_N = [0]
+_CFG = {}
+
+
+def history_json(m, vs, steps):
+    j = case_json(m, vs)
+    j['history'] = C.jsonable(steps)
+    j['how_to_read'] = ('construct `mesh` + `vars` (harness/c06.py: build), apply the steps of `history` in order to that ONE object '
+                        '(apply_edit / run_query / do_export); the mesh of the property at an EXPORT step is what the object '
+                        'reports just before it (public_state)')
+    return j
+
+
+def shrink_history(ctx, m, vs, steps, sig):
+    """greedy: drop every step that is not needed for a failure of the same signature"""
+    steps = list(steps)
+    k = len(steps) - 2
+    budget = 25
+    while k >= 0 and budget > 0:
+        cand = steps[:k] + steps[k + 1:]
+        budget -= 1
+        try:
+            _, fl = run_history(ctx, m, vs, steps=cand, quiet_counts=True)
+        except Exception:  # noqa
+            fl = []
+        if any(f[0] == sig for f in fl):
+            steps = cand
+        k -= 1
+    return steps
+
+
+def history_case(ctx, rnd, pending, ids_setter=False):
+    stream = 'history:ids-setter' if ids_setter else 'history'
+    m = gen_mesh_h(rnd, ctx.quick)
+    vs = gen_vars(rnd, m)
+    if rnd.random() < .3:          # variable names that are prefixes of each other
+        ren = {'N0': 'PART1', 'N1': 'PART10', 'N2': 'PART', 'N3': 'PART1_'}
+        for v in vs:
+            v['name'] = ren[v['name']]
+            if v.get('attr') in ren:
+                v['attr'] = ren[v['attr']]
+        m['dims'].append('variable names prefixes of each other')
+    plan = draw_plan(rnd, ids_setter)
+    steps, fails = run_history(ctx, m, vs, plan=plan, rnd=rnd, pending=pending)
+    n_exp = sum(1 for s in steps if s['step'] == 'export')
+    ctx.case((stream, G.enc_mesh(m), repr(vs), repr(steps)),
+             sample={'stream': stream, 'mesh': G.describe(m), 'dims': m.get('dims'), 'history': [step_label(s) for s in steps]},
+             nontrivial=n_exp > 0)
+    ctx.count(f'{stream}:exports per object:{min(n_exp, 4)}' + ('+' if n_exp >= 4 else ''))
+    for d in m.get('dims', []):
+        ctx.count('history:mesh-dimension:' + d)
+    if len(m['blocks']) > 1:
+        ctx.count('history:mixed mesh, element types inserted in ' + ('canonical' if list(G.insertion_order(
+            {t: _IdsOnly([e for e, _ in b]) for t, b in m['blocks'].items()})) == list(m['blocks']) else 'NON-canonical') + ' order')
+    kinds = ''.join({'export': 'X', 'query': 'q', 'edit': 'e'}[s['step']] for s in steps)
+    for pat, name in [('XX', 'export twice in a row'), ('XeX', 'export, modify, export'), ('eX', 'modify, export'), ('qX', 'query, export')]:
+        if pat in kinds:
+            ctx.count('history:pattern:' + name)
+    seen = set()
+    for sig, text, idx, obs in fails:
+        if sig in seen:
+            continue
+        seen.add(sig)
+        if sig == 'tie':
+            ctx.disagree('history: ' + obs, history_json(m, vs, steps[:idx + 1]), obs, 'the model re-establishes the table in every modifier')
+            continue
+        cut = steps[:idx + 1]
+        if sig not in _SHRUNK and len(_SHRUNK) < 8:      # the first failure of every signature is minimised
+            _SHRUNK.add(sig)
+            cut = shrink_history(ctx, m, vs, cut, sig)
+        ctx.fail(sig, text + ' [one object: ' + ' -> '.join(step_label(s) for s in cut) + ']', history_json(m, vs, cut), obs)
+
+
+_SHRUNK = set()
+
+
+class _IdsOnly:
+    def __init__(self, ids):
+        self.ids = ids
+
+
 def table_oracle(ctx):
     """the table clauses on the real code (used when a table theorem breaks): femio's own dictionaries and the
     two tet2 reorderings, against the hand specification"""
@@ -438,10 +1412,31 @@ def table_oracle(ctx):
         ctx.fail('tet2-edge-order', f'_to_meshio_tet2 takes columns {to}; VTK edge order needs {want}', {'table': 'tet2'}, to)
 
 
+def corpus(ctx, pending):
+    """minimised past failures (corpus/C06/*.json: histories in the format of the `history` stream), replayed first"""
+    for name, j in C.corpus_cases(PROP):
+        if 'history' not in j:
+            continue
+        m = G.from_json(j['mesh'])
+        m['geometric_tet2'] = j['mesh'].get('geometric_tet2', False)
+        vs = [dict(v, rows=[[F(x) for x in r] for r in v['rows']]) for v in j['vars']]
+        steps, fails = run_history(ctx, m, vs, steps=j['history'], pending=pending)
+        ctx.count('corpus')
+        ctx.case(('corpus', name), sample={'stream': 'corpus', 'file': name, 'history': [step_label(s) for s in steps]}, nontrivial=True)
+        for sig, text, idx, obs in fails:
+            if sig == 'tie':
+                ctx.disagree(f'corpus case {name}: ' + obs, j, obs, 'the model re-establishes the table in every modifier')
+            else:
+                ctx.fail(sig, f'corpus case {name}: {text} [one object: ' + ' -> '.join(step_label(s) for s in steps[:idx + 1]) + ']',
+                         {k: v for k, v in j.items() if k != 'note'}, obs)
+
+
 def run(ctx):
     rnd = ctx.rng
     table_oracle(ctx)
     pending = []
+    _CFG['ids_setter_refreshes'] = ids_setter_refreshes()
+    corpus(ctx, pending)
     for k in range(ctx.n(600, 5000)):
         one_case(ctx, rnd, pending)
         if len(pending) >= 200:
@@ -458,7 +1453,18 @@ def run(ctx):
         if len(pending) >= 200:
             flush(ctx, pending)
     flush(ctx, pending)
+    # histories on one live object: public modifications, other queries, several exports (drawn last: the cases of the
+    # streams above stay what they were for a given seed)
+    _CFG['ids_setter_refreshes'] = ids_setter_refreshes()
+    ctx.count('history:tree: FEMAttribute.ids setter ' + ('refreshes' if _CFG['ids_setter_refreshes'] else 'does NOT refresh') + ' id2index')
+    for k in range(ctx.n(160, 2500)):
+        history_case(ctx, rnd, pending, ids_setter=(k % 9 == 8))
+        if len(pending) >= 200:
+            flush(ctx, pending)
+    flush(ctx, pending)
     if ctx.driver is None:
+        for k in range(ctx.n(200, 800)):
+            history_case(ctx, rnd, None, ids_setter=(k % 9 == 8))
         for k in range(ctx.n(300, 1000)):
             one_case(ctx, rnd, pending)
             pending.clear()
@@ -481,6 +1487,12 @@ def replay(ctx, obj):
     vs = case['vars']
     for v in vs:
         v['rows'] = [[F(x) for x in r] for r in v['rows']]
+    if 'history' in case:
+        _CFG['ids_setter_refreshes'] = ids_setter_refreshes()
+        steps, fails = run_history(ctx, m, vs, steps=case['history'], quiet_counts=True)
+        return {'fails': any(f[0] != 'tie' for f in fails), 'history': [step_label(s) for s in steps],
+                'violations': [(f[0], f[1]) for f in fails if f[0] != 'tie'],
+                'model_tie': [f[3] for f in fails if f[0] == 'tie']}
     upd = case.get('update_ids')
     impl = run_real(ctx, m, vs, upd)
     res = {'outcome': impl[0] if impl[0] == 'ok' else impl[1]}
